@@ -42,9 +42,9 @@ type c15Case struct {
 	// JSON error body and goes quiet; the context ends while the client is
 	// reading that body.
 	ErrBodyCut bool `json:"err_body_cut,omitempty"`
-	HRecv int  `json:"hrecv"`
-	HSend int  `json:"hsend"`
-	Bound int  `json:"bound"`
+	HRecv      int  `json:"hrecv"`
+	HSend      int  `json:"hsend"`
+	Bound      int  `json:"bound"`
 	// RR: explore around the round-robin default scheduler instead of run-to-block.
 	RR bool `json:"rr,omitempty"`
 	// Ideal: idealised transport that notices the end of the request context
